@@ -86,7 +86,7 @@ DEFAULT4 = ("v4_unicast", "yes", "no", "core")
 DEFAULT6 = ("v6_unallocated", "na", "na", "core")
 LOOPBACK = {"v4_loopback", "v6_loopback"}
 
-MODES_QUICK = ("regular", "local", "transparent")
+MODES_QUICK = ("regular", "local")  # the random driver uses all modes
 MODES_ALL = ("regular", "local", "local:curl", "transparent", "upstream:http://example.com:3128",
              "reverse:https://example.com", "socks5", "dns", "wireguard", "tun")
 LOCAL_MODES = frozenset({"local", "local:curl"})
@@ -394,7 +394,7 @@ class Check(core.PropertyCheck):
         # random addresses far from the enumerated boundaries, all modes, random spelling variants
         rng = random.Random(ctx.seed + 22)
         all_nets = {"v4": NETS4, "v6": NETS6}
-        for _ in range(800 if ctx.quick else 12000):
+        for _ in range(600 if ctx.quick else 12000):
             fam = rng.choice(("v4", "v6"))
             bits = 32 if fam == "v4" else 128
             r = rng.random()
